@@ -9,15 +9,17 @@
 (* the same digest.  A Reset event separates independent scenarios.               *)
 EXTENDS Integers, Sequences, TLC, TraceLib
 
-VARIABLES bind, bindDel, l
-tvars == <<bind, bindDel, l>>
+VARIABLES bind, bindDel, bindGen, l
+tvars == <<bind, bindDel, bindGen, l>>
 
 Ev == Trace[l]
 IsEvent(e) == l <= Len(Trace) /\ Ev.ev = e /\ l' = l + 1
 
-TInit == bind = <<>> /\ bindDel = <<>> /\ l = 1
+TInit == bind = <<>> /\ bindDel = <<>> /\ bindGen = <<>> /\ l = 1
 
-TReset == IsEvent("Reset") /\ bind' = <<>> /\ bindDel' = <<>>
+\* the genesis binding is not reset: the genesis block on an empty database is the same block on the
+\* same prior state in every scenario of one node configuration
+TReset == IsEvent("Reset") /\ bind' = <<>> /\ bindDel' = <<>> /\ UNCHANGED bindGen
 
 Bound(f, key, d) == IF key \in DOMAIN f THEN f[key] = d ELSE TRUE
 Extend(f, key, d) == IF key \in DOMAIN f THEN f ELSE (key :> d) @@ f
@@ -25,14 +27,21 @@ Extend(f, key, d) == IF key \in DOMAIN f THEN f ELSE (key :> d) @@ f
 TRun == /\ IsEvent("Run")
         /\ Bound(bind, <<Ev.prior, Ev.blk>>, Ev.dig)
         /\ bind' = Extend(bind, <<Ev.prior, Ev.blk>>, Ev.dig)
-        /\ UNCHANGED bindDel
+        /\ UNCHANGED <<bindDel, bindGen>>
+
+\* the genesis block executed on an empty database (this chain instance, a second chain instance of
+\* the same process, a chain in a fresh process), per node configuration
+TGen == /\ IsEvent("Gen")
+        /\ Bound(bindGen, Ev.cfg, Ev.dig)
+        /\ bindGen' = Extend(bindGen, Ev.cfg, Ev.dig)
+        /\ UNCHANGED <<bind, bindDel>>
 
 TDel == /\ IsEvent("Del")
         /\ Bound(bindDel, <<Ev.prior, Ev.blk>>, Ev.dig)
         /\ bindDel' = Extend(bindDel, <<Ev.prior, Ev.blk>>, Ev.dig)
-        /\ UNCHANGED bind
+        /\ UNCHANGED <<bind, bindGen>>
 
-TNext == TReset \/ TRun \/ TDel
+TNext == TReset \/ TRun \/ TDel \/ TGen
 TSpec == TInit /\ [][TNext]_tvars
 
 \* the property, as an invariant over what has been bound: one digest per (prior, block)
